@@ -268,7 +268,7 @@ func (u *UnitsDefinition) parse(data string) (any, error) {
 			return 0, err
 		}
 	}
-	baseMatchGroup := match[u.reSubExpNames["g1"]]
+	baseMatchGroup := match[u.reSubExpNames["gbase"]]
 	intNumber, floatNumber, isFloat, err = u.handleParseMultiplier(
 		baseMatchGroup,
 		1,
@@ -347,7 +347,7 @@ func (u *UnitsDefinition) updateReCache() {
 		}
 	}
 	parts = append(parts, fmt.Sprintf(
-		"(?:|(?P<g1>[0-9]+(|\\.[0-9]+))\\s*(|%s|%s|%s|%s))",
+		"(?:|(?P<gbase>[0-9]+(|\\.[0-9]+))\\s*(|%s|%s|%s|%s))",
 		regexp.QuoteMeta(u.BaseUnitValue.NameShortSingular()),
 		regexp.QuoteMeta(u.BaseUnitValue.NameShortPlural()),
 		regexp.QuoteMeta(u.BaseUnitValue.NameLongSingular()),
